@@ -280,7 +280,10 @@ pub fn generate(seed: u64, grammars: &[Grammar]) -> Scenario {
                         next_id += 1;
                         parses.push((id2, slot));
                         results.push((id2, slot));
-                        ops.push(Op::Parse { id: id2, slot, g: gname, rule: rule2, entry: Entry::ParsePartial, form: Form::Span, a, b: b2, thread });
+                        // half of the twins run on another thread (state shared between threads, keyed by per-thread counters)
+                        let thread2 = if rng.chance(1, 2) { rng.below(threads) } else { thread };
+                        let entry2 = if rng.chance(3, 4) { Entry::ParsePartial } else { Entry::ALL[rng.below(4)] };
+                        ops.push(Op::Parse { id: id2, slot, g: gname, rule: rule2, entry: entry2, form: Form::Span, a, b: b2, thread: thread2 });
                     }
                 }
             }
